@@ -139,7 +139,43 @@ pub fn run(ctx: &Ctx) -> Report {
             acc
         })
         .reduce(Acc::default, |a, b| a.merge(b));
-    let acc = acc.merge(acc_lens);
+    let mut acc = acc.merge(acc_lens);
+    // (2c) excess after a complete message whose size is, or is near, a multiple of 65 536 (a stream reader
+    // that hands over everything it has buffered): zeros, 0xFF, and whole further messages
+    {
+        let mut ex: Vec<Case> = Vec::new();
+        for body in 0..3u8 {
+            let mut b = wire::encode_header(c0, m0, t0, 0);
+            match body {
+                1 => wire::append_raw(&mut b, 0x8022, b"abcd"),
+                2 => {
+                    wire::append_raw(&mut b, 0x0006, b"user");
+                    wire::append_fp(&mut b);
+                }
+                _ => {}
+            }
+            for extra in [65_535usize, 65_536, 65_537, 131_072, 196_608, 65_536 - 20, 65_536 + 20, 65_536 - b.len(), 65_536 + b.len()] {
+                for fill in 0..3u8 {
+                    let mut x = b.clone();
+                    match fill {
+                        0 => x.resize(b.len() + extra, 0),
+                        1 => x.resize(b.len() + extra, 0xFF),
+                        _ => {
+                            while x.len() < b.len() + extra {
+                                let take = (b.len() + extra - x.len()).min(b.len());
+                                x.extend_from_slice(&b[..take]);
+                            }
+                        }
+                    }
+                    ex.push(Case::new("parse", x).text(&["excess-64k"]));
+                }
+            }
+        }
+        let n = ex.len() as u64;
+        let mut a = crate::props::sweep(ex.into_par_iter(), judge);
+        a.nontrivial += n;
+        acc = acc.merge(a);
+    }
     // (3) large messages: one big attribute followed by every tail over {MI, MI256, FP ok, FP bad, OPT}
     //     of length <= 2, so that the tail ends at every multiple of four in 65 480..=65 552 and
     //     around 255/256, 4 095/4 096 and 32 767/32 768; plus declared-length perturbations and
@@ -351,7 +387,10 @@ pub fn run(ctx: &Ctx) -> Report {
             }
         }
     }
-    let acc = acc.merge(crate::props::sweep(dups.into_par_iter(), judge));
+    let mut acc = acc.merge(crate::props::sweep(dups.into_par_iter(), judge));
+    // thread teardown: the parser family from a thread-local destructor (child process)
+    crate::teardown::judge(P, "parser", &mut acc);
+    crate::teardown::callsite_sweep(P, "parser", &mut acc);
     Report {
         acc,
         exhaustive: true,
